@@ -238,7 +238,11 @@ func visitInstr(fr *frame, instr ssa.Instruction) continuation {
 				panic(runtimeError("integer divide by zero"))
 			}
 		}
-		fr.env[instr] = binop(instr.Op, instr.X.Type(), x, y)
+		r := binop(instr.Op, instr.X.Type(), x, y)
+		if rs, ok := r.(sym); ok && rs.k == types.Bool {
+			r = exactFPBool(fr, rs)
+		}
+		fr.env[instr] = r
 
 	case *ssa.Call:
 		if fr.i.initMode && fr.fn.Name() == "init" && fr.fn.Synthetic != "" {
@@ -282,6 +286,17 @@ func visitInstr(fr *frame, instr ssa.Instruction) continuation {
 		if sx, ok := x.(sym); ok && sx.k == types.Float64 {
 			if b, ok := instr.Type().Underlying().(*types.Basic); ok && b.Info()&types.IsInteger != 0 {
 				convGuard(fr, sx, kindOf(instr.Type()))
+				if v, ok := exactIntQuotient(fr, sx, kindOf(instr.Type())); ok {
+					fr.env[instr] = v
+					break
+				}
+				if dk := kindOf(instr.Type()); dk == types.Int64 || dk == types.Int || dk == types.Int32 {
+					w, _ := kindWidth(dk)
+					if q := fr.i.X.intervals().ExactFP(smt.FToS(sx.t, w)); q != nil {
+						fr.env[instr] = mkSym(q, dk)
+						break
+					}
+				}
 			}
 		}
 		fr.env[instr] = conv(instr.Type(), instr.X.Type(), x)
